@@ -234,6 +234,10 @@ func (d *PathDecoder) decodeReferenceTargetsForBody(body hcl.Body, parentBlock *
 
 				if !bSchema.Address.BodyAsData {
 					refs = append(refs, bodyRef)
+				} else {
+					// the target of the static body (appended above)
+					// is superseded by the one of the merged body
+					refs[len(refs)-1] = bodyRef
 				}
 			}
 		}
